@@ -39,6 +39,9 @@ func (c *channelHolder) HandleActive(ctx ActiveContext) {
 	// handlers and the read loop may block in the transport and would never notice.
 	if err := ctx.Channel().Context().Err(); nil != err {
 		ctx.Close(err)
+		// the channel is closed and the inactive event has been delivered: do not activate the handlers
+		// behind this one any more (they would start timers, handshakes... for a dead channel).
+		return
 	}
 
 	ctx.HandleActive()
